@@ -40,7 +40,7 @@ SPIKE = {
                                                                     # a later level (third peak separates) renumbers the markers
 }
 GAUSS_EXTRA = {
-    'B2d': [(50, 8.5, 6.0, 1.7), (42, 15.0, 10.5, 1.7)],                    # diagonal 2-blend (base of H2m only)
+    'B2d': [(50, 8.5, 6.0, 1.7), (42, 14.0, 10.5, 1.7)],                    # diagonal 2-blend (base of H2m only)
 }
 NOISE_TYPES = ('N2',)      # 2-blend + a seed-generic sparse positive noise image inside the segment (sub-npixels components
 #                            at generic places and levels)
